@@ -643,12 +643,12 @@ impl Task {
                         return true;
                     }
 
-                    // fix the branch.default state
-                    if siblings.iter().any(|iter| {
-                        iter.state().is_error()
-                            || iter.state().is_success()
-                            || iter.state().is_abort()
-                    }) {
+                    // fix the branch.default state:
+                    // a sibling that ended in any other way than being skipped has taken the step
+                    if siblings
+                        .iter()
+                        .any(|iter| iter.state().is_completed() && !iter.state().is_skip())
+                    {
                         self.set_state(TaskState::Skipped);
                         self.persist();
                     }
